@@ -45,6 +45,7 @@ def run(ctx):
     ctx.rule = ("generated workspaces (redefinitions, overrides, imported, plugin and third-party names; every name requested "
                 "from every directory) + the repository's example project; at every usage position the definitions decoded "
                 "from 7 request kinds are compared; distinct = (usage kind, #same-named definitions, features that answered)")
+    pinned(ctx)
     for i in range(n):
         root = ctx.scratch(f"w{i}")
         ws = gen.gen_workspace(root, ctx.rng, depth=ctx.rng.randint(1, 3), venv=(i % 2 == 0))
@@ -223,3 +224,11 @@ def one(ctx, root, abs_files, rel_files, generated, spec):
         srv.shutdown()
         if un:
             raise Inconclusive("server stopped answering (C11 territory)")
+
+
+def pinned(ctx):
+    from ..witness import WITNESS, ws_from_witness
+    w = WITNESS[KF_SELF_VIEW]
+    ws = ws_from_witness(ctx, w)
+    one(ctx, ws.root, ws.abs_files(), ws.files, generated=True, spec=w["spec"])
+    shutil.rmtree(ws.root, ignore_errors=True)
